@@ -8,7 +8,7 @@
       deletes itself and calls `record_done`; a rejected spawn is destroyed without being started);
     * the spawned operation's stop token is the scope's own, so the leaf's stop callback is
       registered directly with the scope's stop source;
-    * `cleanup()` = `request_stop()` then wait — `end_of_scope` runs ONCE (v1's runs twice);
+    * `cleanup()` = `request_stop()` then wait — `end_of_scope` runs once (v1's `end_scope` twice);
       `complete()` = `end_of_scope()` then wait.
   Not modelled: the `opState_.load(acquire)` that `await_and_sync` performs before the join
   receiver completes (no effect under sequential consistency).
